@@ -847,6 +847,19 @@ class DocGen:
                 # the field's first paragraph wraps, ends with `::`, a literal block and one more paragraph follow
                 fld["literal"] = self.block_lines()
                 fld["after"] = self.inlines(1, 4)
+            elif k in self.CONS_KINDS and self.rng.random() < 0.45:
+                # seeded C09-r5-1: a description of more than one block - used where the field is written as an entry of a reST
+                # consolidated field (bullet item / definition): further paragraph, nested list, literal block
+                more: List[Any] = []
+                for _ in range(self.rng.randint(1, 3)):
+                    r = self.rng.random()
+                    if r < 0.4:
+                        more.append(("para", self.inlines(1, 5)))
+                    elif r < 0.75:
+                        more.append(("list", [self.inlines(1, 4) for _ in range(self.rng.randint(1, 3))]))
+                    else:
+                        more.append(("lit", self.inlines(1, 3), self.block_lines()))
+                fld["more"] = more
             res.append(fld)
         if allow_dup and owner == "function":
             # the same keyword (and sometimes the same parameter) documented twice
@@ -856,6 +869,8 @@ class DocGen:
                     res.insert(self.rng.randrange(len(res) + 1),
                                {"kind": k, "arg": arg, "type": None, "body": self.inlines(1, 4), "type_first": False})
         return res
+
+    CONS_KINDS = ("param", "keyword", "raise", "ivar", "cvar", "var")
 
     def document(self):
         owner = self.rng.choice(["function", "function", "function", "class", "class", "module", "module", "property", "variable"])
@@ -1173,7 +1188,7 @@ class Ser:
                 cons = self.consolidated if (not self.ep and f["kind"] in self.CONSOLIDATED and not f.get("literal")) else None
                 if cons:
                     # one entry of a consolidated field, written below
-                    consolidated.setdefault(self.CONSOLIDATED[f["kind"]], []).append((f["arg"], body, w))
+                    consolidated.setdefault(self.CONSOLIDATED[f["kind"]], []).append((f["arg"], body, w, f.get("more") if body else None))
                     desc = []
                 elif not body:
                     desc = [mk(tag, f["arg"]).rstrip()]
@@ -1202,16 +1217,38 @@ class Ser:
                 else:
                     entries.append(desc)
                 exp.append(e)
+            def more_blocks(more, pad, w, block):
+                # the further blocks of one entry's description, each after a blank line, indented like its first paragraph
+                for mb in more:
+                    block.append("")
+                    if mb[0] == "para":
+                        block.extend(self.wrap(mb[1], pad, pad, w))
+                    elif mb[0] == "list":
+                        for it in mb[1]:
+                            block.extend(self.wrap(it, pad + "- ", pad + "  ", w))
+                    else:
+                        w2: List[str] = []
+                        block.extend(self.wrap(list(mb[1]) + [("w", "shown")], pad, pad, w2, width=300, suffix="::"))
+                        w.extend(w2[:-1] + ["shown:"])
+                        block.append("")
+                        block.extend([(pad + "    " + l.rstrip()) if l.strip() else "" for l in mb[2]])
+                        w.extend("\n".join(mb[2]).split())
+                    self.flags.add("consolidated-entry-block:" + mb[0])
+                block.append("")
             for name, items in consolidated.items():
                 block = [":%s:" % name]
-                for arg, body, w in items:
-                    if self.consolidated == "deflist" and name not in ("Exceptions",) and all(b for _, b, _ in items):
+                for arg, body, w, more in items:
+                    if self.consolidated == "deflist" and name not in ("Exceptions",) and all(b for _, b, _, _ in items):
                         block.append("    `%s`" % arg)
                         block.extend(self.wrap(body, "        ", "        ", w))
+                        if more:
+                            more_blocks(more, "        ", w, block)
                     else:
                         sep = ": " if self.consolidated != "bullet-" else " - "
                         if body:
                             block.extend(self.wrap(body, "    - `%s`%s" % (arg, sep), "      ", w))
+                            if more:
+                                more_blocks(more, "      ", w, block)
                         else:
                             block.append("    - `%s`" % arg)
                 entries.append(block)
@@ -2384,6 +2421,15 @@ def corpus_documents() -> List[Dict[str, Any]]:
         docs.append(dict(base, consolidated=cons, owner="function", body=[("para", W("Doc"))],
                     fields=[fld("param", "a", lead="-1"), fld("param", "b", lead="--verbose"), fld("keyword", "opt", lead=":-)"),
                             fld("raise", "ValueError", lead="::"), fld("raise", "KeyError", lead="-x")]))
+    # seeded C09-r5-1: entries of a consolidated field whose description has more than one block
+    more = [("para", W("Literal", "addresses", "are", "accepted")), ("list", [W("numeric", "form"), W("bracketed", "form")]),
+            ("lit", W("As", "in"), ["x = 1", "    deeper", "", "end"])]
+    for cons in ("bullet:", "bullet-", "deflist"):
+        docs.append(dict(base, consolidated=cons, owner="function", body=[("para", W("Doc"))],
+                    fields=[fld("param", "a", more=more), fld("param", "b"), fld("keyword", "opt", more=more[:1]),
+                            fld("raise", "ValueError", more=more[1:2]), fld("raise", "KeyError", more=more[2:])]))
+        docs.append(dict(base, consolidated=cons, owner="class", body=[("para", W("Doc"))],
+                    fields=[fld("ivar", "zz", more=more), fld("cvar", "yy", more=more[:1]), fld("ivar", "ww")]))
     docs.append(dict(base, consolidated="bullet:", owner="class", body=[("para", W("Doc"))],
                 fields=[fld("ivar", "zz", lead="-1"), fld("cvar", "yy", lead=":"), fld("ivar", "ww", lead="-0.5")]))
     # seeded C09-r2-2: first paragraph of an item / field wraps, ends with `::`, literal block, another paragraph
